@@ -66,13 +66,32 @@ func (t *connTable) open() []*tconn {
 	return o
 }
 
-// confirmedAbove: more than limit connections open now AND the same connections still open after the grace period
-func (t *connTable) confirmedAbove(limit int, grace time.Duration) []*tconn {
+// confirmedAbove: more than limit connections are open now AND the same connections are still open
+// after the client's event loop has demonstrably run many times (barrier = a call that is answered by
+// the loop) over at least `grace`. A limit that is really broken keeps the extra connections open for
+// good; an event loop that is merely slow on a loaded machine catches up within the 2 s this waits.
+func (t *connTable) confirmedAbove(limit int, grace time.Duration, barrier func()) []*tconn {
 	o := t.open()
 	if len(o) <= limit {
 		return nil
 	}
-	time.Sleep(grace)
+	t0 := time.Now()
+	for i := 0; i < 40; i++ {
+		barrier()
+		time.Sleep(50 * time.Millisecond)
+		var still []*tconn
+		for _, c := range o {
+			if !c.closed.Load() {
+				still = append(still, c)
+			}
+		}
+		if len(still) <= limit {
+			return nil
+		}
+		if i >= 20 && time.Since(t0) >= grace {
+			o = still
+		}
+	}
 	var still []*tconn
 	for _, c := range o {
 		if !c.closed.Load() {
@@ -204,9 +223,9 @@ func dialCase(k int) {
 	worstStats := 0
 	viol := false
 	for time.Since(t0) < 1500*time.Millisecond && !viol {
-		if still := tab.confirmedAbove(limit, 250*time.Millisecond); still != nil {
+		if still := tab.confirmedAbove(limit, 250*time.Millisecond, func() { t.Stats() }); still != nil {
 			if vx.CanaryWorstSince(t0) < 100*time.Millisecond {
-				run.Violation("dial-limit-exceeded", fmt.Sprintf("%s: MaxPeerDial=%d but %d connections from the client stayed open together for 250 ms: %s", label, limit, len(still), describe(still)), nil)
+				run.Violation("dial-limit-exceeded", fmt.Sprintf("%s: MaxPeerDial=%d but %d connections from the client stayed open together for 2 s while the event loop answered 40 calls: %s", label, limit, len(still), describe(still)), nil)
 				viol = true
 			} else {
 				run.Inconclusive(label + ": load canary late")
@@ -330,9 +349,9 @@ func acceptCase(k int) {
 		// while the wave is in progress: never more than limit kept
 		end := time.Now().Add(600 * time.Millisecond)
 		for time.Now().Before(end) {
-			if still := tab.confirmedAbove(limit, 250*time.Millisecond); still != nil {
+			if still := tab.confirmedAbove(limit, 250*time.Millisecond, func() { t.Stats() }); still != nil {
 				if vx.CanaryWorstSince(t0) < 100*time.Millisecond {
-					run.Violation("accept-limit-exceeded", fmt.Sprintf("%s: MaxPeerAccept=%d but %d incoming connections were kept open together for 250 ms: %s", label, limit, len(still), describe(still)), nil)
+					run.Violation("accept-limit-exceeded", fmt.Sprintf("%s: MaxPeerAccept=%d but %d incoming connections were kept open together for 2 s while the event loop answered 40 calls: %s", label, limit, len(still), describe(still)), nil)
 				} else {
 					run.Inconclusive(label + ": load canary late")
 				}
